@@ -914,6 +914,17 @@ def t_loop_exit_siblings(facts, res, tier):
         got = checks(arms[pt])
         key = "T-LOOP-EXIT-SIBLINGS:%s" % pt.split("::")[1]
         res.inst(key, True, {"shortcut": got, sib: ref})
+        # the other direction: what the shortcut rejects, the statement itself rejects too; and the empty continue label is a value
+        # generate_switch really pushes, so both readers of the continue label have to refuse it
+        sw = facts.fn("generate_switch", GEN_QUAL)
+        pushes_empty = any(x.get("k") == "mcall" and x["method"] == "push" and "loops" in expr_text(x["recv"]) and '"".to_string()' in expr_text(x).replace(" ", "") for x in walk(sw["body"]))
+        sibfn = gb if sib == "generate_break" else gc
+        for what in ("none", "empty"):
+            need = got[what] or (what == "empty" and pt == "Statement::Continue" and pushes_empty)
+            if need and not ref[what]:
+                res.fail(key + ":" + sib, facts.where(sibfn), "%s does not reject %s%s: it emits a jump to a label that does not exist (`JMP` with an empty operand)" % (
+                    sib, "a missing enclosing loop" if what == "none" else "the empty continue label generate_switch pushes for a switch outside any loop",
+                    ", which the `if (c) ..;` shortcut of generate_if does" if got[what] else ""))
         for what in ("none", "empty"):
             if ref[what] and not got[what]:
                 res.fail(key, facts.where(gi, arms[pt]), "the `if (c) %s;` shortcut in generate_if does not reject %s, which %s does: `if (c) %s;` %s emits a branch to a label that does not exist (the branch checker then panics)" % (
